@@ -65,6 +65,23 @@ def section(rng, path, kind="change", fmt=None, width=None, nonl=True):
     return dict(path=path, newpath=newpath, a=a, b=b, text=text, fmt=fmt, kind=kind, hs=hs, ops=ops, mode_old=mo, mode_new=mn, w=w)
 
 
+def headerlike_section(rng, path, fmt="unified"):
+    """a change whose first hunk starts by removing a comment line '-- word ...' (which reads '--- word ...' in the hunk)
+    and which has a second hunk further down"""
+    first = rng.choice(["-- x helpers", "-- %s" % path, "-- a/%s\t2024" % path, "-- q"])
+    mid = [(t.replace("\r", "r"), "L") for t, nl in gen.rand_file(rng, maxlen=6, small=True)] + [("m%d" % i, "L") for i in range(7)]
+    a = [(first, "L")] + mid + [("tail", "L")]
+    ops = [("-", a[0]), ("+", ("-- changed", "L"))] + [(" ", l) for l in a[1:-1]] + [("-", a[-1]), ("+", ("TAIL", "L"))]
+    b = [l for o, l in ops if o != "-"]
+    w = rng.choice([0, 1, 3])
+    hs = gen.hunks_from_ops(ops, w)
+    if fmt == "git":
+        text = emit.emit_git(path, path, hs)
+    else:
+        text = emit.emit_unified("a/" + path, "b/" + path, hs, "2024-01-01 00:00:00.000000000 +0000", "2024-01-02 00:00:00.000000000 +0000")
+    return dict(path=path, newpath=path, a=a, b=b, text=text, fmt=fmt, kind="change", hs=hs, ops=ops, mode_old=None, mode_new=None, w=w)
+
+
 def add_parents(tree, path):
     parts = path.split("/")[:-1]
     for i in range(1, len(parts) + 1):
